@@ -156,6 +156,7 @@ type fpModel struct {
 	Attempts map[string]string
 	LastInv  string // last invocation that changed the fingerprint state under .task (for signatures)
 	TSFp     string
+	FpIDs    map[string]string // timestamp: raw fingerprint (names and mtimes) -> name in order of appearance
 	// Taint: signature tag of the first unsound skip for a fingerprint; later skips of the same
 	// stale state are consequences of that one and carry the same tag
 	Taint map[string]string
@@ -178,7 +179,10 @@ func (m *fpModel) Key() string {
 func baseInv(n string) string { return strings.TrimRight(n, "12") }
 
 func (m *fpModel) Clone() hModel {
-	c := &fpModel{Attempts: map[string]string{}, LastInv: m.LastInv, TSFp: m.TSFp, Taint: map[string]string{}}
+	c := &fpModel{Attempts: map[string]string{}, LastInv: m.LastInv, TSFp: m.TSFp, Taint: map[string]string{}, FpIDs: map[string]string{}}
+	for k, v := range m.FpIDs {
+		c.FpIDs[k] = v
+	}
 	for k, v := range m.Attempts {
 		c.Attempts[k] = v
 	}
@@ -319,15 +323,18 @@ func fpEvents(prop string, sh fpShape, tier string) []hEvent {
 			if sh.noMatch {
 				fp = "(the sources pattern matches no file)"
 			}
-			if sh.method == "timestamp" && fp != m.TSFp {
-				// mtimes changed: earlier attempts belong to another fingerprint
-				m.Attempts = map[string]string{}
-				m.Taint = map[string]string{}
-				m.TSFp = fp
-			}
 			key := fp
 			if sh.method == "timestamp" {
-				key = "cur"
+				// (modification times differ from history to history: fingerprints are named in their order
+				// of appearance, so that equal situations still have equal model keys; a fingerprint that
+				// comes back — a source added and removed again — finds its own earlier attempts)
+				if m.FpIDs == nil {
+					m.FpIDs = map[string]string{}
+				}
+				if _, ok := m.FpIDs[fp]; !ok {
+					m.FpIDs[fp] = fmt.Sprintf("fp%d", len(m.FpIDs))
+				}
+				key = m.FpIDs[fp]
 			}
 			before := takeSnapshot(dir)
 			tr0 := traceOf(dir)
